@@ -21,7 +21,12 @@ partial def decPat : Sexp → Option IPat
   | .list [.atom "pbool"] => some .bool
   | .list [.atom "pint"] => some .int
   | .list [.atom "pstr"] => some .str
+  | .list [.atom "ptint", t] => do pure (.tint (← decTy t))
   | .list (.atom "ptuple" :: ps) => do pure (.tuple (← optMapM decPat ps))
+  | .list (.atom "pconstr" :: .list [.atom "ctor", t, k] :: ps) => do
+      pure (.constr (some (some (← decTy t, ← k.nat?))) (← optMapM decPat ps))
+  | .list (.atom "pconstr" :: .list [.atom "noctor"] :: ps) => do pure (.constr (some none) (← optMapM decPat ps))
+  | .list (.atom "pconstr" :: .list [.atom "ambiguous"] :: ps) => do pure (.constr none (← optMapM decPat ps))
   | _ => none
 
 def decName : Sexp → Option NameRes
@@ -62,6 +67,10 @@ partial def decE : Sexp → Option IExpr
   | .list (.atom "scall" :: i :: fi :: .atom tn :: .atom m :: args) => do
       pure (.scall (← i.nat?) (← fi.nat?) tn m (← optMapM decE args))
   | .list (.atom "array" :: i :: es) => do pure (.array (← i.nat?) (← optMapM decE es))
+  | .list (.atom "constr" :: i :: .list [.atom "ctor", t, k] :: es) => do
+      pure (.constr (← i.nat?) (some (some (← decTy t, ← k.nat?))) (← optMapM decE es))
+  | .list (.atom "constr" :: i :: .list [.atom "noctor"] :: es) => do pure (.constr (← i.nat?) (some none) (← optMapM decE es))
+  | .list (.atom "constr" :: i :: .list [.atom "ambiguous"] :: es) => do pure (.constr (← i.nat?) none (← optMapM decE es))
   | _ => none
 partial def decArm : Sexp → Option IArm
   | .list [.atom "arm", p, b] => do pure (.mk (← decPat p) (← decE b))
@@ -142,6 +151,8 @@ partial def annotPat : IPat → Ty → TPat
   | .bool, _ => .lit .bool .bool
   | .int, vty => .lit (if isIntegerTy vty then vty else .int 32 true) vty
   | .str, _ => .lit .string .string
+  | .tint k, _ => .lit k k
+  | .constr _ ps, vty => .constr (ps.map fun p => annotPat p .unit) vty
   | .tuple ps, vty =>
     let tys := match vty with
       | .tuple tys => if tys.length = ps.length then tys else ps.map fun _ => Ty.unit
@@ -152,7 +163,7 @@ partial def annotPat : IPat → Ty → TPat
 def idOf : IExpr → Nat
   | .lit i _ | .name i _ | .tuple i _ | .closure i _ _ | .letE i _ _ _ | .block i _ | .ite i _ _ _ | .while i _ _
   | .call i _ _ | .un i _ _ | .bin i _ _ _ | .proj i _ _ | .field i _ _ | .matchE i _ _ => i
-  | .mcall i _ _ _ _ | .scall i _ _ _ _ | .array i _ => i
+  | .mcall i _ _ _ _ | .scall i _ _ _ _ | .array i _ | .constr i _ _ => i
 
 mutual
 /-- the tree of the body with the REAL final type of every node (`none`: a node without a recorded type) -/
@@ -190,6 +201,7 @@ partial def annot (tab : List (Nat × Ty)) : IExpr → Option TExpr
   | .mcall _ _ _ _ _ => none
   | .scall _ _ _ _ _ => none
   | .array _ _ => none
+  | .constr _ _ _ => none
   | .matchE i sc arms => do
       let ts ← annot tab sc
       pure (.matchE ts (← optMapM (annotArm tab ts.ty) arms) (← lookupT tab i))
